@@ -28,8 +28,8 @@
    setting of the reader's switches (selfmade, skip_nulls when no page has a null, inplace) the reader model
    applied to the writer model's bytes returns exactly the column.
    `_partial`, the visible guards:
-     - wp_ok: every page has 1 <= rows < 2^31; a required column has no null; PLAIN pages: type is not BOOLEAN
-       (the writer bit-packs / RLE-encodes booleans: the C01_bools theorems), values fit the type; categorical pages:
+     - wp_ok: every page has 1 <= rows < 2^31; a required column has no null; PLAIN pages: values fit the type
+       (BOOLEAN included: np.packbits with the writer's extra padding byte, w_plain / wr_bools); categorical pages:
        k in {1, 2, 4}, every code < 2^(8k-1) (a signed k-byte integer, what a pandas categorical holds), labels present (codes outside the labels: no column, see w_page_cells);
      - phdr_wf: sizes and counts fit a thrift i32 (a page < 2 GiB);
      - wp_inplace_ok: the in-place v2 path is only taken for fixed-width numeric types (as in read_col);
@@ -40,7 +40,7 @@
    codes / hybrid), v2 pages through the use_cat branch of read_data_page_v2 with ITS selfmade shortcut (skip the
    run header, copy or view the raw codes) or the hybrid decoder.  Extra guards: every page is a dictionary page,
    the chunk has a row, the codes array has the item size the writer used (ak = k).
-   Not covered here: nested columns (C15), BOOLEAN columns, the object-dtype conversions before / after
+   Not covered here: nested columns (C15), the object-dtype conversions before / after
    (convert / C02 frames), statistics, the row-group / file level.                                         *)
 From Coq Require Import String.
 From Coq Require Import NArith ZArith List Bool.
